@@ -18,6 +18,8 @@ func extractAll() {
 	safely("oneway", onewayFacts)
 	safely("mgr", mgrFacts)
 	safely("gen", genFacts)
+	safely("net", netFacts)
+	safely("nodeconn", nodeConnFacts)
 	safely("access", accessFacts)
 }
 
@@ -306,6 +308,38 @@ func correctableFacts() {
 		}
 	}
 	defE("corr_setCmp", sc)
+	// atomicity: Watch's test and its registration, and the whole of set, run in one exclusive critical section of c.mu
+	// (the model's Watch / set are single steps): c.mu.Lock() with a deferred c.mu.Unlock(), no other lock operation,
+	// taken before the first use of the object's state
+	oneSection := func(f *ast.FuncDecl) bool {
+		if f == nil || f.Body == nil {
+			return false
+		}
+		iLock := -1
+		for k, st := range f.Body.List {
+			if p.src(st) == "c.mu.Lock()" {
+				iLock = k
+				break
+			}
+		}
+		if iLock < 0 || iLock+1 >= len(f.Body.List) || p.src(f.Body.List[iLock+1]) != "defer c.mu.Unlock()" {
+			return false
+		}
+		whole := p.src(f.Body)
+		if strings.Count(whole, "c.mu.") != 2 || strings.Contains(whole, "RLock") {
+			return false
+		}
+		for _, st := range f.Body.List[:iLock] {
+			for _, fld := range []string{"c.level", "c.done", "c.watchers", "c.reply", "c.err"} {
+				if p.mentions(st, fld) {
+					return false
+				}
+			}
+		}
+		return true
+	}
+	defBool("corr_watchAtomic", oneSection(w))
+	defBool("corr_setAtomic", oneSection(s))
 	// the publication structure of the loop: described by the normalised text of the reply case
 	h := p.findFunc("correctable.go", "RawConfiguration.handleCorrectableCall")
 	pub := "<absent>"
@@ -691,3 +725,282 @@ func templateFacts() {
 func mgrFacts() { templateFacts() }
 
 func genFacts() {}
+
+// ------------------------------------------------------------------ composite system (Net: C01, C05, C06)
+
+// netFacts: what the composite model `Net` takes as given about ids and payloads.
+//
+//	net_idOnce_<fn>     the call function draws exactly one id, from getMsgID, outside every loop and closure
+//	net_counterMgr      RawManager.getMsgID is one atomic increment of the manager's counter
+//	net_counterCfg      RawConfiguration.getMsgID delegates to the manager
+//	net_recvRouteKey    the receiver routes under the id found in the message it has just read
+//	net_recvSameMsg     … and that message is the one handed to RecvMsg
+//	net_nidAll          every response the channel builds names the channel's own node
+//	net_wrapKeepsId     WrapMessage returns the metadata it was given and does not touch its MessageID
+//	net_tmplWrapArgs    first arguments of every WrapMessage call in the server template
+//	net_tmplMdDef       what `md` is in the stream handler of the template
+func netFacts() {
+	p := loadDir("")
+	type cf struct{ file, fn, recv string }
+	for _, c := range []cf{{"quorumcall.go", "RawConfiguration.QuorumCall", "c"}, {"async.go", "RawConfiguration.AsyncCall", "c"},
+		{"correctable.go", "RawConfiguration.CorrectableCall", "c"}, {"multicast.go", "RawConfiguration.Multicast", "c"},
+		{"rpc.go", "RawNode.RPCCall", "n.mgr"}, {"unicast.go", "RawNode.Unicast", "n.mgr"}} {
+		name := c.fn[strings.Index(c.fn, ".")+1:]
+		f := p.findFunc(c.file, c.fn)
+		ok := false
+		if f != nil {
+			count, nested, recvOK := 0, false, true
+			var walk func(n ast.Node, inner bool)
+			walk = func(n ast.Node, inner bool) {
+				ast.Inspect(n, func(m ast.Node) bool {
+					if m == nil || m == n {
+						return true
+					}
+					switch t := m.(type) {
+					case *ast.ForStmt, *ast.RangeStmt, *ast.FuncLit, *ast.GoStmt:
+						walk(t, true)
+						return false
+					case *ast.CallExpr:
+						if sel, isSel := t.Fun.(*ast.SelectorExpr); isSel && sel.Sel.Name == "getMsgID" {
+							count++
+							if inner {
+								nested = true
+							}
+							if p.src(sel.X) != c.recv {
+								recvOK = false
+							}
+						}
+					}
+					return true
+				})
+			}
+			walk(f.Body, false)
+			// … and that id is the one in the metadata of every message the function hands to a node channel
+			whole := p.src(f.Body)
+			ok = count == 1 && !nested && recvOK &&
+				strings.Contains(whole, "md := &ordering.Metadata{MessageID: "+c.recv+".getMsgID()") && strings.Contains(whole, "Metadata: md") &&
+				strings.Count(whole, "&ordering.Metadata{") == 1
+		}
+		defBool("net_idOnce_"+name, ok)
+	}
+	body := func(file, fn string) string {
+		f := p.findFunc(file, fn)
+		if f == nil || f.Body == nil {
+			return "<absent>"
+		}
+		var parts []string
+		for _, st := range f.Body.List {
+			parts = append(parts, p.src(st))
+		}
+		return strings.Join(parts, "; ")
+	}
+	defStr("net_counterMgr", body("mgr.go", "RawManager.getMsgID"))
+	defStr("net_counterCfg", body("config.go", "RawConfiguration.getMsgID"))
+	// the receiver
+	routeKey, sameMsg := "<absent>", false
+	if f := p.findFunc("channel.go", "channel.receiver"); f != nil {
+		recvArg := ""
+		ast.Inspect(f, func(n ast.Node) bool {
+			c, ok := n.(*ast.CallExpr)
+			if !ok {
+				return true
+			}
+			if sel, isSel := c.Fun.(*ast.SelectorExpr); isSel {
+				if sel.Sel.Name == "RecvMsg" && len(c.Args) == 1 {
+					recvArg = p.src(c.Args[0])
+				}
+				if sel.Sel.Name == "routeResponse" && len(c.Args) == 2 && p.mentions(c.Args[1], "msg:") {
+					routeKey = p.src(c.Args[0])
+					sameMsg = recvArg != "" && strings.HasPrefix(routeKey, recvArg+".") && p.mentions(c.Args[1], "msg: "+recvArg+".Message")
+				}
+			}
+			return true
+		})
+	}
+	defStr("net_recvRouteKey", routeKey)
+	defBool("net_recvSameMsg", sameMsg)
+	// every response literal of channel.go that names a node names the channel's own
+	nidAll, nLits := true, 0
+	if f := p.files["channel.go"]; f != nil {
+		ast.Inspect(f, func(n ast.Node) bool {
+			cl, ok := n.(*ast.CompositeLit)
+			if !ok || p.src(cl.Type) != "response" {
+				return true
+			}
+			hasNid := false
+			for _, e := range cl.Elts {
+				if kv, ok := e.(*ast.KeyValueExpr); ok && p.src(kv.Key) == "nid" {
+					hasNid = true
+					nLits++
+					if p.src(kv.Value) != "c.node.ID()" {
+						nidAll = false
+					}
+				}
+			}
+			// a response that carries a message or an error must name its node (the empty one is the send confirmation)
+			if !hasNid && len(cl.Elts) > 0 {
+				nidAll = false
+			}
+			return true
+		})
+	}
+	defBool("net_nidAll", nidAll && nLits > 0)
+	// WrapMessage
+	wrapOK := false
+	if f := p.findFunc("server.go", "WrapMessage"); f != nil && f.Type.Params != nil && len(f.Type.Params.List) > 0 && len(f.Type.Params.List[0].Names) > 0 {
+		md := f.Type.Params.List[0].Names[0].Name
+		returnsMd, touches := false, false
+		ast.Inspect(f.Body, func(n ast.Node) bool {
+			switch t := n.(type) {
+			case *ast.ReturnStmt:
+				if len(t.Results) == 1 && p.mentions(t.Results[0], "Metadata: "+md) {
+					returnsMd = true
+				}
+			case *ast.AssignStmt:
+				for _, l := range t.Lhs {
+					s := p.src(l)
+					if s == md || s == md+".MessageID" || s == "*"+md {
+						touches = true
+					}
+				}
+			}
+			return true
+		})
+		wrapOK = returnsMd && !touches
+	}
+	defBool("net_wrapKeepsId", wrapOK)
+	// the server template
+	g := loadDir("cmd/protoc-gen-gorums/gengorums")
+	tm := tmplVar(g, "template_server.go", "registerInterface")
+	var args []string
+	const call = "{{$wrapMessage}}("
+	for rest := tm; ; {
+		i := strings.Index(rest, call)
+		if i < 0 {
+			break
+		}
+		rest = rest[i+len(call):]
+		// first argument: up to the first top-level comma
+		depth, j := 0, 0
+		for j = 0; j < len(rest); j++ {
+			ch := rest[j]
+			if ch == '(' {
+				depth++
+			} else if ch == ')' {
+				if depth == 0 {
+					break
+				}
+				depth--
+			} else if ch == ',' && depth == 0 {
+				break
+			}
+		}
+		args = append(args, strings.TrimSpace(rest[:j]))
+	}
+	defStrList("net_tmplWrapArgs", args)
+	mdDef := "<absent>"
+	if i := strings.Index(tm, "md := "); i >= 0 {
+		r := tm[i+len("md := "):]
+		// to the end of the statement: the template text is whitespace-normalised, the statement ends before " return"
+		if j := strings.Index(r, " return"); j >= 0 {
+			mdDef = strings.TrimSpace(r[:j])
+		}
+	}
+	defStr("net_tmplMdDef", mdDef)
+}
+
+// ------------------------------------------------------------------ node connection (NodeConn: C12)
+
+// nodeConnFacts: the four facts the model `NodeConn` takes as parameters.
+//
+//	node_dialLocked        dial starts with connMu.Lock(); defer connMu.Unlock() and never unlocks otherwise
+//	node_dialChecksClosed  dial returns before DialContext when n.closed is set
+//	node_dialClosesOld     dial closes a non-nil n.conn before DialContext
+//	node_closeCloses       close takes connMu (deferred unlock), sets n.closed and closes n.conn, in that order, and
+//	                       leaves early only after n.closed is set
+func nodeConnFacts() {
+	p := loadDir("")
+	locked := func(f *ast.FuncDecl) (int, bool) { // index of the Lock statement; ok iff the next statement is the deferred Unlock and there is no other Unlock
+		if f == nil {
+			return -1, false
+		}
+		idx := -1
+		for k, st := range f.Body.List {
+			if p.src(st) == "n.connMu.Lock()" {
+				idx = k
+				break
+			}
+		}
+		if idx < 0 || idx+1 >= len(f.Body.List) || p.src(f.Body.List[idx+1]) != "defer n.connMu.Unlock()" {
+			return idx, false
+		}
+		return idx, strings.Count(p.src(f.Body), "connMu.Unlock()") == 1
+	}
+	dialLocked, checksClosed, closesOld := false, false, false
+	if f := p.findFunc("node.go", "RawNode.dial"); f != nil {
+		iLock, ok := locked(f)
+		iDial, iChk, iOld := -1, -1, -1
+		for k, st := range f.Body.List {
+			src := p.src(st)
+			if strings.Contains(src, "grpc.DialContext(") && iDial < 0 {
+				iDial = k
+			}
+			if is, isIf := st.(*ast.IfStmt); isIf {
+				if p.src(is.Cond) == "n.closed" && terminates(is.Body) && iChk < 0 {
+					iChk = k
+				}
+				if p.src(is.Cond) == "n.conn != nil" && p.mentions(is.Body, "n.conn.Close()") && iOld < 0 {
+					iOld = k
+				}
+			}
+		}
+		dialLocked = ok && iLock == 0 && iDial > iLock
+		checksClosed = iChk > iLock && iLock >= 0 && iChk < iDial
+		closesOld = iOld > iLock && iLock >= 0 && iOld < iDial
+	}
+	defBool("node_dialLocked", dialLocked)
+	defBool("node_dialChecksClosed", checksClosed)
+	defBool("node_dialClosesOld", closesOld)
+	closeOK := false
+	if f := p.findFunc("node.go", "RawNode.close"); f != nil {
+		iLock, ok := locked(f)
+		iSet, iClose, early := -1, -1, false
+		for k, st := range f.Body.List {
+			src := p.src(st)
+			if src == "n.closed = true" && iSet < 0 {
+				iSet = k
+			}
+			if strings.Contains(src, "n.conn.Close()") && iClose < 0 {
+				iClose = k
+			}
+			// a return before closed is set, or a return between the flag and the Close other than for a nil connection
+			if is, isIf := st.(*ast.IfStmt); isIf && terminates(is.Body) {
+				if iSet < 0 || (iClose < 0 && p.src(is.Cond) != "n.conn == nil") {
+					early = true
+				}
+			}
+			if _, isRet := st.(*ast.ReturnStmt); isRet && iClose < 0 {
+				early = true
+			}
+		}
+		closeOK = ok && iLock >= 0 && iSet > iLock && iClose > iSet && !early
+	}
+	defBool("node_closeCloses", closeOK)
+	// Manager.Close reaches every node: closeOnce.Do(… closeNodeConns …) and closeNodeConns calls close on every node of m.Nodes()
+	mgrOK := false
+	if f, g := p.findFunc("mgr.go", "RawManager.Close"), p.findFunc("mgr.go", "RawManager.closeNodeConns"); f != nil && g != nil {
+		inOnce := strings.Contains(p.src(f.Body), "m.closeOnce.Do(") && p.mentions(f.Body, "m.closeNodeConns()")
+		each := false
+		ast.Inspect(g, func(n ast.Node) bool {
+			if rs, ok := n.(*ast.RangeStmt); ok && p.src(rs.X) == "m.Nodes()" && p.mentions(rs.Body, ".close()") {
+				// no statement of the loop body leaves the loop
+				if !p.mentions(rs.Body, "break") && !p.mentions(rs.Body, "return") {
+					each = true
+				}
+			}
+			return true
+		})
+		mgrOK = inOnce && each
+	}
+	defBool("mgr_closeReachesEveryNode", mgrOK)
+}
